@@ -260,3 +260,64 @@ func LostStatus(r *rand.Rand) Scn {
 	s.Steps = steps
 	return s
 }
+
+// PauseRace: an ObjectSet with delegated phases is paused at a random point of its roll-out — also
+// before the phase controller has looked at a phase object for the first time, or while the phase
+// object has not reported for its current generation — then the ObjectSet and every phase
+// controller run again (the phase controllers must not write any more), then it is released.
+func PauseRace(r *rand.Rand) Scn {
+	s := Scn{Cluster: r.Intn(5) == 0}
+	objNS := ""
+	if s.Cluster {
+		objNS = "ns1"
+	}
+	names := []string{"a", "b", "c"}
+	nph := 1 + r.Intn(3)
+	os1 := SetSpec{Name: "os1"}
+	for i := 0; i < nph; i++ {
+		cls := "default"
+		if r.Intn(4) == 0 {
+			cls = ""
+		}
+		os1.Phases = append(os1.Phases, PhaseSpec{Name: fmt.Sprintf("p%d", i+1), Class: cls,
+			Objects: []verifphase.PObj{{Kind: "NsThing", NS: objNS, Name: names[i], CP: "Prevent", Payload: "x", DryRun: "accept"}}})
+	}
+	s.Sets = []SetSpec{os1}
+	phasePasses := func(p float64) (out []Step) {
+		for _, ph := range os1.Phases {
+			if ph.Class != "" && r.Float64() < p {
+				out = append(out, Step{Op: "phase", Set: "os1-" + ph.Name})
+			}
+		}
+		return
+	}
+	var steps []Step
+	for i := range os1.Phases {
+		steps = append(steps, Step{Op: "reconcile", Set: "os1"})
+		steps = append(steps, phasePasses(0.5)...)
+		if r.Intn(3) != 0 {
+			steps = append(steps, Step{Op: "env", Env: []verifphase.EnvOp{{Op: "setReady", Kind: "NsThing", NS: "ns1", Name: names[i], Ready: true, ObsGen: -1}}})
+			steps = append(steps, phasePasses(0.5)...)
+		}
+	}
+	cut := 1 + r.Intn(len(steps))
+	steps = append(steps[:cut:cut], Step{Op: "lifecycle", Set: "os1", Value: "Paused"})
+	for k := 0; k < 2; k++ {
+		steps = append(steps, Step{Op: "reconcile", Set: "os1"})
+		steps = append(steps, phasePasses(1)...)
+	}
+	if r.Intn(2) == 0 { // someone edits an object while everything is paused: nobody may repair it
+		steps = append(steps, Step{Op: "env", Env: []verifphase.EnvOp{{Op: "setPayload", Kind: "NsThing", NS: "ns1", Name: names[r.Intn(nph)], Payload: "drift", ObsGen: -1}}})
+		steps = append(steps, phasePasses(1)...)
+		steps = append(steps, Step{Op: "reconcile", Set: "os1"})
+	}
+	if r.Intn(2) == 0 {
+		steps = append(steps, Step{Op: "lifecycle", Set: "os1", Value: "Active"})
+		for k := 0; k < 2; k++ {
+			steps = append(steps, Step{Op: "reconcile", Set: "os1"})
+			steps = append(steps, phasePasses(1)...)
+		}
+	}
+	s.Steps = steps
+	return s
+}
